@@ -140,6 +140,69 @@ func spin(n int) {
 	}
 }
 
+// scratch is a goroutine's own buffer for slice-typed ARGUMENTS.  An ordinary slice / map copies
+// what it is given: the caller may reuse the slice it spread into Append, and nothing the
+// container does later may write into the caller's array (its spare capacity included).  Every
+// Append is therefore made as s.Append(buf[:n:n+spare]...) from this buffer (spare = 0, 1 or the
+// rest of the buffer, by operation index); between calls every cell holds a sentinel (a negative
+// value no operation ever appends).  After the call the argument cells are overwritten with
+// sentinels again ("the caller reuses its buffer"): a container that kept a reference shows the
+// sentinels in a later Slice() and the recorded history stops being linearizable.  A cell found
+// changed (before the next use of the buffer, right after a call, or when the execution is
+// over) means the container wrote into the caller's memory: reported through [alias].
+type scratch struct {
+	buf   []int64
+	base  int64
+	alias *atomic.Bool
+}
+
+const scratchCap = 16
+
+func newScratch(tid int, alias *atomic.Bool) *scratch {
+	sc := &scratch{buf: make([]int64, scratchCap), base: -int64(1000000 + 1000*tid), alias: alias}
+	for i := range sc.buf {
+		sc.buf[i] = sc.base - int64(i)
+	}
+	return sc
+}
+
+// intact: every cell from index lo on still holds its sentinel
+func (sc *scratch) intact(lo int) {
+	for i := lo; i < len(sc.buf); i++ {
+		if sc.buf[i] != sc.base-int64(i) {
+			sc.alias.Store(true)
+			sc.buf[i] = sc.base - int64(i)
+		}
+	}
+}
+
+// arg copies items into the buffer and returns the slice to spread into the call
+func (sc *scratch) arg(items []int64, opIndex int) []int64 {
+	n := len(items)
+	if n+1 > len(sc.buf) { // replayed input with a long item list
+		old := sc.buf
+		sc.buf = make([]int64, n+scratchCap)
+		copy(sc.buf, old)
+		for i := len(old); i < len(sc.buf); i++ {
+			sc.buf[i] = sc.base - int64(i)
+		}
+	}
+	copy(sc.buf, items)
+	spare := []int{len(sc.buf) - n, 0, 1}[opIndex%3]
+	return sc.buf[:n:n+spare]
+}
+
+// reuse: after the call the arguments must be unchanged; then the caller reuses its buffer
+func (sc *scratch) reuse(items []int64) {
+	for i, v := range items {
+		if sc.buf[i] != v {
+			sc.alias.Store(true)
+		}
+		sc.buf[i] = sc.base - int64(i)
+	}
+	sc.intact(len(items))
+}
+
 // container instances for one execution
 type objects struct {
 	m cmap.Map[int, int64]
@@ -161,7 +224,7 @@ func newObjects(kind string) *objects {
 }
 
 // runThread executes one goroutine's operation list and fills recs.
-func runThread(ctr *atomic.Int64, obj *objects, tid int, ops []Op, recs []Call, slow bool) {
+func runThread(ctr *atomic.Int64, obj *objects, tid int, ops []Op, recs []Call, slow bool, sc *scratch) {
 	for i := range ops {
 		o := &ops[i]
 		r := &recs[i]
@@ -200,6 +263,7 @@ func runThread(ctr *atomic.Int64, obj *objects, tid int, ops []Op, recs []Call, 
 			r.RList = make([]int64, len(ks))
 			for j, k := range ks {
 				r.RList[j] = int64(k)
+				ks[j] = -1 - k // the result belongs to the caller: it may do with it what it likes
 			}
 			sort.Slice(r.RList, func(a, b int) bool { return r.RList[a] < r.RList[b] })
 		case oRange:
@@ -276,10 +340,13 @@ func runThread(ctr *atomic.Int64, obj *objects, tid int, ops []Op, recs []Call, 
 				r.RN = v
 			}
 		case oAppend:
+			sc.intact(0)
+			arg := sc.arg(o.Items, i)
 			r.Inv = ctr.Add(1)
-			n := obj.s.Append(o.Items...)
+			n := obj.s.Append(arg...)
 			r.Res = ctr.Add(1)
 			r.RN = int64(n)
+			sc.reuse(o.Items)
 		case oSLen:
 			r.Inv = ctr.Add(1)
 			n := obj.s.Len()
@@ -357,11 +424,35 @@ const blockSize = 128
 
 type round struct {
 	obj  *objects
-	ctr  atomic.Int64
-	recs [][]Call
+	ctr   atomic.Int64
+	recs  [][]Call
+	scr   []*scratch
+	alias atomic.Bool // the container wrote into a caller's buffer during this execution
 }
 
-func runBatch(p *Program, reps int, each func(h []Call)) bool {
+// epilogue: when every goroutine is done, goroutine 0 makes one more observation of the whole
+// container (after the callers have reused their buffers and scribbled over returned slices)
+func epilogue(rd *round, p *Program) {
+	var o Op
+	switch p.Kind {
+	case "slice":
+		o = Op{K: "slice", code: oSlice}
+	case "map":
+		o = Op{K: "keys", code: oKeys}
+	default:
+		return
+	}
+	rec := make([]Call, 1)
+	runThread(&rd.ctr, rd.obj, 0, []Op{o}, rec, false, rd.scr[0])
+	rd.recs[0] = append(rd.recs[0], rec[0])
+	for _, sc := range rd.scr {
+		if sc != nil {
+			sc.intact(0)
+		}
+	}
+}
+
+func runBatch(p *Program, reps int, each func(h []Call, alias bool)) bool {
 	n := len(p.Threads)
 	for base := 0; base < reps; base += blockSize {
 		m := reps - base
@@ -372,8 +463,12 @@ func runBatch(p *Program, reps int, each func(h []Call)) bool {
 		for r := range rounds {
 			rounds[r].obj = newObjects(p.Kind)
 			rounds[r].recs = make([][]Call, n)
+			rounds[r].scr = make([]*scratch, n)
 			for t := 0; t < n; t++ {
 				rounds[r].recs[t] = make([]Call, len(p.Threads[t]))
+				if p.Kind == "slice" {
+					rounds[r].scr[t] = newScratch(t, &rounds[r].alias)
+				}
 			}
 		}
 		var arrived atomic.Int64
@@ -393,7 +488,7 @@ func runBatch(p *Program, reps int, each func(h []Call)) bool {
 						}
 					}
 					rd := &rounds[r]
-					runThread(&rd.ctr, rd.obj, t, p.Threads[t], rd.recs[t], p.Slow)
+					runThread(&rd.ctr, rd.obj, t, p.Threads[t], rd.recs[t], p.Slow, rd.scr[t])
 				}
 				doneCh <- struct{}{}
 			}(t)
@@ -408,7 +503,8 @@ func runBatch(p *Program, reps int, each func(h []Call)) bool {
 			}
 		}
 		for r := range rounds {
-			each(finish(rounds[r].recs))
+			epilogue(&rounds[r], p)
+			each(finish(rounds[r].recs), rounds[r].alias.Load())
 		}
 	}
 	return true
